@@ -60,6 +60,60 @@
 #include "alloc_model.h"
 #include "rwlock_model.h"
 
+/* ---- C16: "havoc outside the lock" reduction ------------------------------------------------
+ * With -DVL_HAVOC the protected fields of the table under test (the two trie roots) hold ARBITRARY
+ * values whenever its rwlock is not held and their true values only inside a critical section.
+ * Code that touches table state outside a critical section therefore reads garbage (or has its
+ * write overwritten) and fails the functional oracle; the counters give "one read section per read".
+ */
+static struct pfx_table *hv_table;
+static struct trie_node *hv_true4, *hv_true6;
+static bool hv_scrambled;
+static unsigned int hv_unlocked_root_changes; /* roots changed inside a READ section */
+struct trie_node *nondet_trie_node_ptr(void);
+
+static void hv_scramble(void)
+{
+#ifdef VL_HAVOC
+	if (!hv_table || hv_scrambled)
+		return;
+	hv_true4 = hv_table->ipv4;
+	hv_true6 = hv_table->ipv6;
+	hv_table->ipv4 = ND_BOOL("havoc.null4") ? NULL : (struct trie_node *)&hv_scrambled;
+	hv_table->ipv6 = ND_BOOL("havoc.null6") ? NULL : (struct trie_node *)&hv_scrambled;
+	hv_scrambled = true;
+#endif
+}
+
+static void hv_restore(void)
+{
+#ifdef VL_HAVOC
+	if (!hv_table || !hv_scrambled)
+		return;
+	hv_table->ipv4 = hv_true4;
+	hv_table->ipv6 = hv_true6;
+	hv_scrambled = false;
+#endif
+}
+
+#ifdef VL_HAVOC
+void vl_on_acquire(pthread_rwlock_t *l, int write)
+{
+	(void)write;
+	if (hv_table && l == &hv_table->lock)
+		hv_restore();
+}
+
+void vl_on_release(pthread_rwlock_t *l, int was_write)
+{
+	if (hv_table && l == &hv_table->lock) {
+		if (!was_write && (hv_table->ipv4 != hv_true4 || hv_table->ipv6 != hv_true6))
+			hv_unlocked_root_changes++;
+		hv_scramble();
+	}
+}
+#endif
+
 static struct rtr_socket tl_sock[3];
 
 static const struct rtr_socket *tl_nd_socket(const char *name)
